@@ -284,6 +284,9 @@ func (f *witness) Exec(r *hx.Run, op []string) string {
 		f.ensure()
 		return "ok"
 	}
+	if op[0] == "sigtx" {
+		return f.execSigTx(r, op)
+	}
 	c, model, ok := f.parse(op)
 	if !ok {
 		return "bad-op"
@@ -460,6 +463,7 @@ func (f *witness) Gen(r *hx.Run) {
 		}
 		r.Nontrivial(fmt.Sprintf("validators/%d", n))
 	}
+	f.genSigTx(r, &cid)
 	// stateful walks: successful calls are persisted
 	n := r.Pick(12, 400)
 	for w := 0; w < n; w++ {
